@@ -127,6 +127,32 @@ def race_events(races, run, path):
     return len(evs)
 
 
+class EngineCrash(Exception):
+    """the driver process was killed by the code under test (a panic or a runtime fatal error such as 'concurrent map
+    iteration and map write' in a goroutine whose innermost frames are the engine's): an observation, not INFRA"""
+
+    def __init__(self, mode, msg, site, frames):
+        Exception.__init__(self, msg)
+        self.mode, self.msg, self.site, self.frames = mode, msg, site, frames
+
+
+def engine_crash(stderr):
+    """(message, innermost badwolf function, first frames) when the dying goroutine's innermost non-runtime frame belongs
+    to github.com/google/badwolf (and not to the harness); None otherwise"""
+    m = re.search(r"(panic: .*|fatal error: .*)$", stderr, re.M)
+    if not m:
+        return None
+    tail = stderr[m.start():]
+    blocks = re.split(r"\n\ngoroutine ", tail)
+    first = blocks[1] if len(blocks) > 1 else tail
+    funcs = [ln.strip() for ln in first.splitlines() if re.match(r"^[\w./*()\[\]-]+\(", ln.strip()) and not ln.startswith("\t")]
+    funcs = [f for f in funcs if not f.startswith(("runtime.", "panic(", "internal/", "sync.", "sort.", "reflect."))]
+    if not funcs or "github.com/google/badwolf/" not in funcs[0]:
+        return None
+    site = funcs[0].split("github.com/google/badwolf/", 1)[1].rsplit("(", 1)[0]
+    return m.group(1)[:200], site, funcs[:5]
+
+
 def drive(mode, d, extra, timeout=3000):
     """Run concdrv-race <mode> as a child process; returns (trace path, stats, race reports)."""
     tr = os.path.join(d, mode + ".ndjson")
@@ -134,14 +160,23 @@ def drive(mode, d, extra, timeout=3000):
     rl = os.path.join(d, mode + ".race")
     env = dict(os.environ)
     env["GORACE"] = "log_path=%s halt_on_error=0 history_size=2" % rl
-    p = rtcommon.run_driver("concdrv-race", [mode, "-universe", UNI, "-out", tr, "-stats", stp, "-seed", str(vlib.seed())] + extra,
-                            timeout=timeout, ok_codes=(0, 66), env=env)
+    try:
+        p = rtcommon.run_driver("concdrv-race", [mode, "-universe", UNI, "-out", tr, "-stats", stp, "-seed", str(vlib.seed())] + extra,
+                                timeout=timeout, ok_codes=(0, 66), env=env)
+    except Infra as e:
+        crash = engine_crash(str(e))
+        if crash:
+            raise EngineCrash(mode, *crash)
+        raise
     text = ""
     for f in os.listdir(d):
         if f.startswith(mode + ".race"):
             with open(os.path.join(d, f)) as fh:
                 text += fh.read()
     if p.stderr and ("fatal error:" in p.stderr or "panic:" in p.stderr):
+        crash = engine_crash(p.stderr)
+        if crash:
+            raise EngineCrash(mode, *crash)
         raise Infra("concdrv %s died: %s" % (mode, p.stderr[-3000:]))
     return tr, json.load(open(stp)), parse_races(text)
 
@@ -285,6 +320,16 @@ def check(prop):
     gen = {"StoreU.tla": storeu.storeu_tla(u, len(u["triples"]), NAMES)}
     nsmall, nstress, nhammer, nbatch = (700, 6, 4, 80) if tier == "quick" else (12000, 60, 40, 1500)
 
+    try:
+        return check_body(prop, tier, v, u, d, gen, nsmall, nstress, nhammer, nbatch)
+    except EngineCrash as e:
+        v.reject("process-killed:" + e.site, {"part": e.mode, "message": e.msg, "frames": e.frames},
+                 {"mode": e.mode, "seed": vlib.seed(), "message": e.msg, "frames": e.frames})
+        v.notes.append("the %s driver was killed by the code under test; the other parts of this run were not evaluated" % e.mode)
+        return v.finish()
+
+
+def check_body(prop, tier, v, u, d, gen, nsmall, nstress, nhammer, nbatch):
     with cf.ThreadPoolExecutor(max_workers=4) as ex:
         f_mc = ex.submit(model_check, u, tier)
         f_small = ex.submit(drive, "small", d, ["-runs", str(nsmall)])
